@@ -1,9 +1,11 @@
 import NitroVerif.Proto
 import NitroVerif.Model.Opt
+import NitroVerif.Spec.Opt
 
 /-! Driver glue for the option parser (C01–C04, C11–C14): line parsing, canonical output. -/
 namespace NitroVerif.Drv.Opt
-open NitroVerif.Opt NitroVerif.Proto
+open NitroVerif.Opt
+open NitroVerif.Proto (unhex hex unhexList hexList)
 
 def strLt : Str → Str → Bool
   | [], [] => false
@@ -39,7 +41,7 @@ def parseOne (tok : String) : Option AnyD :=
     let dv ← if dflt = "~" then some none else (unhexList ((dflt.replace "+" ","))).map some
     pure (.m ⟨← unhex name, ← optChar short, ← optHex env, dv, fl = "1"⟩)
   | ["t", _g, name, short, env, dflt, fl] => do
-    pure (.t ⟨← unhex name, ← optChar short, ← optHex env, ← dflt.toInt?, fl = "1"⟩)
+    pure (.t ⟨← unhex name, ← optChar short, ← optHex env, ← (if dflt = "~" then some 0 else dflt.toInt?), fl = "1"⟩)
   | _ => none
 
 def parseDecl (s : String) : Option Decl :=
@@ -100,7 +102,10 @@ def histGo (d : Decl) (s : Dyn) : List String → List String
     | _, _ => ["bad-op"]
   | _ => []
 
-def model (f : List String) : String :=
+def model (f0 : List String) : String :=
+  let f := match f0 with
+    | t :: rest => if t.startsWith "C" then rest else f0
+    | [] => f0
   match f with
   | ["P", decl, env, argv] =>
     match parseDecl decl, parseEnv env, unhexList argv with
@@ -126,6 +131,121 @@ def model (f : List String) : String :=
   | ["E", w] =>
     match unhex w with
     | some w => (match parseEnvWord w with | some true => "1" | some false => "0" | none => "user")
+    | none => "bad-op"
+  | _ => "bad-op"
+
+end NitroVerif.Drv.Opt
+
+namespace NitroVerif.Drv.Opt
+open NitroVerif.Opt
+open NitroVerif.Proto (unhex hex unhexList hexList)
+
+/-- part of a result string between `|X:` markers -/
+def part (ans : String) (key : String) : String :=
+  match (ans.splitOn ("|" ++ key ++ ":")) with
+  | [_, r] => (r.splitOn "|").headD ""
+  | _ =>
+    match ans.splitOn ("ok " ++ key ++ ":") with
+    | [_, r] => (r.splitOn "|").headD ""
+    | _ => "?"
+
+def kindOf (ans : String) : String :=
+  if ans.startsWith "ok " then "ok" else ans
+
+/-- the documented vocabulary of toggle environment words (property C11), as literals -/
+def truthyDoc : List String :=
+  ["TRUE", "ON", "YES", "true", "on", "yes", "1", "Y", "with", "True", "On", "WITH", "With", "y", "Yes"]
+def falsyDoc : List String :=
+  ["false", "FALSE", "without", "0", "NO", "no", "Without", "n", "off", "OFF", "N", "False", "Off",
+   "WITHOUT", "No"]
+
+def pFeat (d : Decl) (argv : List Str) (spec : String) : String :=
+  let optLike := argv.filter fun t => !isValueTok t
+  "\targv" ++ toString (min argv.length 6) ++ " spec-" ++ kindOf spec ++
+    (if d.opts.length + d.muls.length + d.togs.length > 0 && !optLike.isEmpty then " nt" else "") ++
+    (if argv.any (fun t => isDoubleDashTok t) then " has-dd" else "") ++
+    (if optLike.any (fun t => match t with | '-' :: c :: _ :: _ => c != '-' | _ => false) then " has-bundle-or-short-eq" else "")
+
+def judgeP (tag : String) (d : Decl) (env : Env) (argv : List Str) (ans : String) : String :=
+  let spec := outcomeStr (specParse d env argv)
+  let feat := pFeat d argv spec
+  let k := kindOf ans
+  if k != "ok" && k != "user" && k != "dev" then "bad:" ++ ans ++ feat
+  else if k == "dev" && consistent d then "bad:developer-error-escapes-parse" ++ feat
+  else if !consistent d then (if k == "dev" then "ok" ++ feat else "bad:inconsistent-declaration-must-refuse-to-parse" ++ feat)
+  else
+  let eqOn := fun (keys : List String) => keys.all fun key => part ans key == part spec key
+  match tag with
+  | "C01" =>
+    -- success => every token is accounted for: the result is the interpretation of an explanation
+    if k == "ok" then
+      (if kindOf spec != "ok" then "bad:accepted-a-command-line-that-has-no-explanation" ++ feat
+       else if !eqOn ["T", "O", "M", "P"] then "bad:result-is-not-the-interpretation-of-the-explanation want " ++ spec ++ feat
+       else "ok" ++ feat)
+    else "ok" ++ feat
+  | "C02" =>
+    -- every spelling of an assignment parses to that assignment
+    if kindOf spec == "ok" then
+      (if ans == spec then "ok" ++ feat else "bad:spelling-does-not-parse-back want " ++ spec ++ feat)
+    else "ok" ++ feat
+  | "C04" =>
+    if k == kindOf spec then "ok" ++ feat else "bad:accept/reject-boundary want " ++ kindOf spec ++ feat
+  | "C11" =>
+    if k == kindOf spec && (k != "ok" || (eqOn ["T"] && part ans "V" == part spec "V")) then "ok" ++ feat
+    else "bad:toggle-result want " ++ spec ++ feat
+  | "C12" =>
+    if k == kindOf spec && (k != "ok" || eqOn ["P"]) then "ok" ++ feat
+    else "bad:positionals want " ++ spec ++ feat
+  | _ =>
+    if ans == spec then "ok" ++ feat else "bad:want " ++ spec ++ feat
+
+def histJudge (d : Decl) : List String → List String → Option String
+  | e :: a :: rest, ans :: more =>
+    match parseEnv e, unhexList a with
+    | some env, some argv =>
+      let spec := outcomeStr (specParse d env argv)
+      if ans == spec then histJudge d rest more
+      else some ("parse-depends-on-earlier-calls: step answers " ++ ans ++ " but a fresh parser gives " ++ spec)
+    | _, _ => some "bad-op"
+  | [], [] => none
+  | _, _ => some "step-count"
+
+def judge (f : List String) (ans : String) : String :=
+  match f with
+  | [tag, "P", decl, env, argv] =>
+    match parseDecl decl, parseEnv env, unhexList argv with
+    | some d, some env, some argv => judgeP tag d env argv ans
+    | _, _, _ => "bad-op"
+  | _tag :: "H" :: decl :: rest =>
+    match parseDecl decl with
+    | some d =>
+      let n := rest.length / 2
+      let feat := "\thist" ++ toString (min n 6) ++ (if n ≥ 2 then " nt" else "")
+      (match histJudge d rest (ans.splitOn ";") with
+        | none => "ok" ++ feat
+        | some e => "bad:" ++ e ++ feat)
+    | none => "bad-op"
+  | [_tag, "I", pos, i] =>
+    match unhexList pos, i.toInt? with
+    | some pos, some i =>
+      let n : Int := pos.length
+      let want := if 0 ≤ i && i < n then some (pos.getD i.toNat [])
+                  else if -n ≤ i && i < 0 then some (pos.getD (n + i).toNat []) else none
+      let feat := "\tindex" ++ (if i < 0 then "-neg" else "-nonneg") ++ (if want.isSome then " nt" else " oob nt")
+      let e := match want with | some s => "ok " ++ hex s | none => "raise"
+      if ans == e then "ok" ++ feat else "bad:" ++ ans ++ " want " ++ e ++ feat
+    | _, _ => "bad-op"
+  | [_tag, "T", tok] =>
+    let m := model ["T", tok]
+    let feat := "\ttoken-" ++ (if m == "user" then "rejected" else "accepted") ++ " nt"
+    if ans == m then "ok" ++ feat else "bad:" ++ ans ++ " want " ++ m ++ feat
+  | [_tag, "E", w] =>
+    match unhex w with
+    | some w =>
+      let s := String.ofList w
+      let e := if truthyDoc.contains s then "1" else if falsyDoc.contains s then "0" else "user"
+      let feat := "\tenvword-" ++ e ++ " nt"
+      if ans == e then "ok" ++ feat else "bad:" ++ ans ++ " want " ++ e ++ feat
     | none => "bad-op"
   | _ => "bad-op"
 
